@@ -8,6 +8,7 @@ import LarkVerif.LRCheck
 import LarkVerif.LRComplete
 import LarkVerif.LALRTable
 import LarkVerif.Shape
+import LarkVerif.Scan
 import Std.Data.HashMap
 /-! Line-protocol driver: one JSON request per stdin line (`{"op": ...}`), one JSON answer per stdout line.
     Runs the *executable definitions the theorems are about*.  Not part of the proof library. -/
@@ -347,6 +348,15 @@ def handle (j : Json) : Except String Json := do
   | "earley" => runEarley j
   | "lr_table" => runLrTable j
   | "shape" => runShape j
+  | "scan" =>
+    let n ← getNat j "n"
+    let pos ← getNat j "pos"
+    let sT ← (← getArr j "search").mapM spanOf
+    let aT ← (← getArr j "attempt").mapM spanOf
+    let sM : Std.HashMap Nat Nat := sT.foldl (fun m (a, b) => m.insert a b) {}
+    let aM : Std.HashMap Nat Nat := aT.foldl (fun m (a, b) => m.insert a b) {}
+    let r := ScanProto.scanRaw (fun p => sM.get? p) (fun p => aM.get? p) (n + 2) pos
+    pure (Json.arr (r.map (fun (a, b) => natArr [a, b])).toArray)
   | "lr_parse" => runLrParse j
   | _ => throw s!"unknown op {op}"
 
